@@ -23,6 +23,19 @@ ChunkStore::ChunkStore(Config config)
         storage_root_ = std::filesystem::path(config.storage_directory.empty() ? "storage" : config.storage_directory);
         if (!ensure_storage_directory()) {
             persistent_enabled_ = false;
+        } else if (wipe_on_expiry_) {
+            // Chunk files are never reloaded, so anything left by an earlier instance (or by an
+            // interrupted store or wipe) can no longer be tracked: wipe it now.
+            std::error_code ec;
+            std::vector<std::filesystem::path> orphans;
+            for (const auto& entry : std::filesystem::directory_iterator(storage_root_, ec)) {
+                if (entry.path().extension() == ".chunk") {
+                    orphans.push_back(entry.path());
+                }
+            }
+            for (const auto& orphan : orphans) {
+                secure_wipe_file(orphan);
+            }
         }
     }
 }
